@@ -242,6 +242,18 @@ def run(shard, rec):
             return [await mpc.output(x ^ n) for n in pub_exps] + [await mpc.output(S.repeat(x, pub_exps[-1]))]
         world_run('repeat-public-exponent', rp, [a ^ n for n in pub_exps] + [a ^ pub_exps[-1]], key + ['rep-pubexp', pub_exps], nt)
 
+        # ---------- elements outside the generator's prime-order subgroup (curves with a cofactor), exponents around the subgroup order
+        if fam == 'ec' and gname.startswith('ed') and m == 1 and rep == 0:
+            Fq = G.field
+            low = {2: (Fq(0), Fq(-1)), 3: (Fq(0), Fq(-1), Fq(1)), 4: (Fq(0), Fq(-1), Fq(1), Fq(0))}[len(G.identity.value)]
+            t2 = G(low)
+            outside = G.generator @ t2
+            big_exps = [order - 1, order + 1, -(order + 2)]
+
+            async def rpo(mpc, S, X, pid):
+                x = sh(mpc, S, outside, pid)
+                return [await mpc.output(x ^ n) for n in big_exps]
+            world_run('repeat-public-exponent-outside-subgroup', rpo, [outside ^ n for n in big_exps], key + ['rep-pubexp-outside'], True, extra={'outside_subgroup': True}, heavy=True)
         # ---------- secret exponents
         xs = exponents()
         for xi, x in enumerate(xs):
@@ -252,10 +264,16 @@ def run(shard, rec):
             ntx = x not in (0, 1) and not (basep == e)
             exf = {'exp_negative': x < 0, 'exp_value_class': 'zero' if x == 0 else 'one' if x == 1 else 'neg' if x < 0 else 'general', 'result_is_identity': bool((basep ^ px) == e)}
 
-            async def pb(mpc, S, X, pid, x=x, basep=basep):
+            base2 = (base ^ 2) if fam == 'sym' else (b if not (b == e) else basep)
+
+            async def pb(mpc, S, X, pid, x=x, basep=basep, base2=base2):
                 sx = shx(mpc, X, x, pid)
-                return [await mpc.output(S.repeat(basep, sx))]
-            world_run('repeat-public-base-secret-exponent', pb, [basep ^ px], key + ['rep-pubbase', xi, x], ntx, extra=dict(exf, base='public'))
+                r1 = S.repeat(basep, sx)
+                r2 = S.repeat(base2, sx)                 # the exponent object is used again (as in (g^x, h^x)) and is still what it was
+                xo = await mpc.output(sx)
+                return [await mpc.output(r1), await mpc.output(r2), int(xo)]
+            px_int = (px % exp_mod) if exp_kind == 'SecFld' else px
+            world_run('repeat-public-base-secret-exponent', pb, [basep ^ px, base2 ^ px, px_int], key + ['rep-pubbase', xi, x], ntx, extra=dict(exf, base='public'))
             rec.count('public_base_secret_exponent')
 
             async def pp(mpc, S, X, pid, x=x, basep=basep):
